@@ -5,7 +5,7 @@ import random
 
 from . import tables
 from .constants import limbs
-from .core import Ctx, limited
+from .core import CallTimeout, Ctx, Guarded, limited
 
 
 def classes():
@@ -28,6 +28,8 @@ def _safe(fn, d):
     try:
         v = limited(fn, 300)
         return _c(v, d)
+    except CallTimeout:
+        raise       # non-termination: abort the job, reported by main
     except Exception as e:  # noqa: BLE001
         return f"EXC:{type(e).__name__}:{e}"[:120]
 
@@ -37,7 +39,7 @@ def rows(ctx: Ctx, fams=("ref", "opt")):
     from .core import NCPU
     jobs = [(k, ctx.seed, ctx.tier) for k, (curve, fam, d, F) in enumerate(classes()) if fam in fams]
     with Pool(min(NCPU, len(jobs))) as pool:
-        parts = pool.map(_class_rows, jobs, chunksize=1)
+        parts = pool.map(Guarded(_class_rows), jobs, chunksize=1)
     return [r for part in parts for r in part]
 
 
